@@ -106,6 +106,7 @@ func (e *Exec) step(fr *frame, st *State, in ssa.Instruction, b *ssa.BasicBlock)
 	case *ssa.Store:
 		p := e.asPtr(e.val(fr, st, x.Addr), x.Addr.Type())
 		e.checkNonNil(st, p, x.Pos(), "store")
+		e.guardCheck(st, p, true, e.pos(x.Pos()))
 		e.store(st, p, e.val(fr, st, x.Val))
 		return true
 	case *ssa.UnOp:
@@ -154,6 +155,7 @@ func (e *Exec) step(fr *frame, st *State, in ssa.Instruction, b *ssa.BasicBlock)
 	case *ssa.Lookup:
 		return e.lookup(fr, st, x)
 	case *ssa.MapUpdate:
+		e.guardMapWrite(fr, st, x.Map, e.pos(x.Pos()))
 		return e.mapUpdate(fr, st, x)
 	case *ssa.MakeMap:
 		ref := e.allocRef(st, "map")
@@ -314,6 +316,7 @@ func (e *Exec) unop(fr *frame, st *State, x *ssa.UnOp) bool {
 	case token.MUL:
 		p := e.asPtr(e.val(fr, st, x.X), x.X.Type())
 		e.checkNonNil(st, p, x.Pos(), "load")
+		e.guardCheck(st, p, false, e.pos(x.Pos()))
 		v := e.load(st, p)
 		if t, ok := v.(Term); ok && e.quant == 0 && (p.Kind == pHeap || p.Kind == pElem) {
 			e.assume(st, e.wellTyped(st, x.Type(), t))
@@ -1054,6 +1057,9 @@ func (e *Exec) send(fr *frame, st *State, x *ssa.Send) bool {
 	}
 	e.trusted("D3: channel operations: a receive yields an arbitrary value, a send does not change the verified state, select picks any case; goroutine interleaving is not modelled")
 	e.sendClosedObl(st, ch, e.pos(x.Pos()))
+	if e.lockChecking() && len(st.locks) > 0 {
+		e.oblige(st, "lock", "lock.blocking", tFalse, e.pos(x.Pos())+": channel send while holding a lock")
+	}
 	if e.nonblocking() {
 		e.oblige(st, "nonblocking", "nonblocking.send", tFalse, e.pos(x.Pos()))
 	}
